@@ -132,3 +132,10 @@ Definition mon_response : monitor_t := fun suite i o =>
 
 Definition diag_response (suite : bytes) (i o : V) : option V :=
   if name_is suite "serve.response" then Some (response_diag (intent_of (vnth 6 i)) o) else None.
+
+(** C08, response side: the same handler byte stream under different Write/Flush
+    segmentations gives the client the same response *)
+Definition all_equal (l : list V) : bool :=
+  match l with [] => true | x :: r => forallb (V_eqb x) r end.
+Definition mon_segments : monitor_t := fun suite i o =>
+  if name_is suite "segments.meta" then Some (all_equal (vl o)) else None.
